@@ -71,9 +71,9 @@ func (propC01) Gen(r *Rng, tier string) *World {
 	w.Cfg.ViaDirect = r.P(0.5)
 	w.Cfg.DirStyle = r.Intn(6)
 	w.Cfg.ViaAPI = r.P(0.4)
-	w.Cfg.Event = []string{"", "", "", "report", "debug"}[r.Intn(5)]
+	w.Cfg.Event = []string{"", "", "", "report", "debug", "both"}[r.Intn(6)]
 	w.API = []string{"eval", "eval", "eval", "eval", "evalbool", "oneshot"}[r.Intn(6)]
-	base := Plan{Bind: g.Binding()}
+	base := Plan{Bind: g.Binding(), CtxDone: r.P(0.1)}
 	w.Calls = append(w.Calls, base)
 	nb := r.Intn(3)
 	for i := 0; i < nb; i++ { // further bindings
